@@ -246,6 +246,9 @@ def all_trees(tier: str, rng: random.Random):  # noqa: ANN201
             for kinds in itertools.product(("ascope", "sscope"), repeat=n):
                 for places in itertools.product(("inline", "spawn", "plain"), repeat=n - 1):
                     cbs = [("sync", "async")[(i + len(parents)) % 2] for i in range(n)]
+                    if n == 2:
+                        yield {"parents": parents, "kinds": list(kinds), "places": ["root", *places], "callbacks": ["async-object", "async-partial"]}
+                        yield {"parents": parents, "kinds": list(kinds), "places": ["root", *places], "callbacks": ["async-method", "async-object"]}
                     yield {"parents": parents, "kinds": list(kinds), "places": ["root", *places], "callbacks": cbs}
                     if n >= 2 and kinds[-1] == "ascope":
                         yield {"parents": parents, "kinds": list(kinds), "places": ["root", *places], "callbacks": cbs, "fails": [False] * (n - 1) + [True]}
@@ -256,7 +259,7 @@ def all_trees(tier: str, rng: random.Random):  # noqa: ANN201
         n = rng.choice([3, 4, 4, 5])
         parents = rng.choice(list(trees(n)))
         yield {"parents": parents, "kinds": [rng.choice(["ascope", "sscope"]) for _ in range(n)], "places": ["root"] + [rng.choice(["inline", "spawn", "plain", "plain"]) for _ in range(n - 1)],
-               "callbacks": [rng.choice(["sync", "async", "sync-raise", "async-raise", "sync"]) for _ in range(n)], "fails": [rng.random() < 0.25 for _ in range(n)],
+               "callbacks": [rng.choice(["sync", "async", "sync-raise", "async-raise", "sync", "async-object", "async-partial", "async-method"]) for _ in range(n)], "fails": [rng.random() < 0.25 for _ in range(n)],
                "traces": [rng.choice([None, None, "shared", f"own-{i}"]) for i in range(n)]}
 
 
